@@ -282,6 +282,9 @@ impl<A, C: Clock, F: Filter, R, S> Port<'_, Running, A, R, C, F, S> {
                 log::error!(
                     "Responses from multiple devices to peer delay request, disabling port!"
                 );
+                // Drop the contested exchange: completing it later must neither yield a
+                // measurement nor bring the port out of the faulty state.
+                self.peer_delay_state = PeerDelayState::Empty;
                 self.set_forced_port_state(PortState::Faulty);
                 actions![]
             }
@@ -345,6 +348,9 @@ impl<A, C: Clock, F: Filter, R, S> Port<'_, Running, A, R, C, F, S> {
                 log::error!(
                     "Responses from multiple devices to peer delay request, disabling port!"
                 );
+                // Drop the contested exchange: completing it later must neither yield a
+                // measurement nor bring the port out of the faulty state.
+                self.peer_delay_state = PeerDelayState::Empty;
                 self.set_forced_port_state(PortState::Faulty);
                 actions![]
             }
